@@ -232,6 +232,12 @@ CANARIES = {
             "new": "    if val > 0.0:\n        return val + log1p(exp(val))",
             "cases": ["precision/log1p_exp"], "what": "wrong sign inside the large-argument branch",
         },
+        "log_sum_exp_wrong_difference": {
+            "module": "mici.utils",
+            "old": "    if val1 > val2:\n        return val1 + log1p_exp(val2 - val1)",
+            "new": "    if val1 > val2:\n        return val1 + log1p_exp(val1 - val2)",
+            "cases": ["precision/log_sum_exp"], "what": "log_sum_exp adds the wrong (positive) difference",
+        },
         "logrep_sub_order": {
             "module": "mici.utils",
             "old": "            if self.log_val >= other.log_val:\n                return LogRepFloat(log_val=log_diff_exp(self.log_val, other.log_val))",
